@@ -223,10 +223,14 @@ PROPS = {
                        'time.Now() drift during the run is far below the idle-age margins used by the generator'],
     'engines': [('coord', 1200, 24000, ['-propok', 'c07_case', '-shardsize', '100'])],
     'level_note': 'Trusted: Coq kernel; hand-written cycle model tied to the Go code by differential runs under all schedules; generated constants; '
-                  'Go harness and driver. Partial (keeps-used theorem pending).',
-    'level_text': 'Proof: every scale request of the model cycle (early and final) lies in [min,max]; the early request is always a raise. Partial: '
-                  '"never below the last shard in use / no shrink when space is needed" is decided by the monitor on the implementation '
-                  '(c07_used_ok) and by the correspondence; its model theorem is not yet proved.',
+                  'Go harness and driver.',
+    'level_text': 'Proof: for every input, option set and schedule, every scale request of the model cycle (early and final) lies in [min,max]; '
+                  'the early request is always a raise; while the current count does not exceed max-shard no request is below the position '
+                  'of a shard that is not in sync, was never idle or not idle longer than max-idle-time, reports targets (with a consistent '
+                  'idle report), or holds a target when planning ends (kept or given one in this very cycle, including by a scale-down '
+                  'move); and no request is below the current count when max-idle-time is 0 or needed space is non-zero. The same '
+                  'statement is evaluated on the implementation\'s observables by the monitor (c07_used_ok) and the model is compared '
+                  'with the real cycle under all schedules.',
     'rule': 'one PRNG: 1-4 shards (1-6 thorough), 0-5 targets (0-7) over 1-2 jobs; each shard independently ready / status-GET fails / runtime-GET '
             'fails / hash differs with push accepted, rejected, still different, re-check failing (65% in sync); per copy state, health, scrape '
             'count from {0,1,2,3,4,5,9}; series/total around the limits (L-1,L,L+1,L/2,...; total >> series); reported loads consistent, at the '
@@ -234,7 +238,7 @@ PROPS = {
             'min/max shard around the current count; explorer results present/absent/bad/unknown; failing POSTs and failing early scale request; '
             'malformed stream: min>max, max_proc=0. Membership under ALL schedules of the model (enumerated, budget 6000). non-trivial = the cycle '
             'sent at least one target POST or requested a scale different from the current count; distinct by input',
-    'theorems': 'C07_bounds C07_early_request_raises',
+    'theorems': 'C07_bounds C07_early_request_raises C07_keeps_used C07_holding_shard_kept C07_no_shrink',
     'trusted_base': [   'model Model/Coordinator.v hand-written from rebalance.go/coordinator.go/shard.go; tie = differential run of the real '
                         'Coordinator (hook VerifRunOnce) against scripted shards through Shard.APIGet/APIPost, compared under every schedule of the '
                         'model',
